@@ -607,6 +607,9 @@ func replayAttrsCase(fam *Family, c *attrsCase, res *RunResult, rng *rand.Rand, 
 	pe.uses++
 	as, want := decAttrs(c.As), decAttrs(c.Res)
 	toks := []Tok{{T: "start", N: Dec(c.El), A: as}}
+	if !VoidEls[Dec(c.El)] && !RawEls[Dec(c.El)] {
+		toks = append(toks, Tok{T: "end", N: Dec(c.El), A: []Attr{}}) // a complete, well-nested document
+	}
 	for v := 0; v < variants; v++ {
 		var r *rand.Rand
 		if v > 0 {
@@ -629,7 +632,7 @@ func replayAttrsCase(fam *Family, c *attrsCase, res *RunResult, rng *rand.Rand, 
 		switch {
 		case rec.Panic != "":
 			res.diverge("panic: %s on %q", rec.Panic, b)
-		case len(rec.Toks) != 1:
+		case len(rec.Toks) != len(toks):
 			res.diverge("token count %d on %q", len(rec.Toks), b)
 		default:
 			te := rec.Toks[0]
@@ -640,7 +643,7 @@ func replayAttrsCase(fam *Family, c *attrsCase, res *RunResult, rng *rand.Rand, 
 			} else if te.Called && !attrsEq(te.After, want) {
 				res.diverge("attributes of %q: real %v spec %v", b, te.After, want)
 			} else if !blocked && c.Known {
-				emit := len(te.Writes) == 1 && (te.Writes[0].Tok.T == "start")
+				emit := len(te.Writes) >= 1 && (te.Writes[0].Tok.T == "start")
 				wantEmit := len(want) > 0 || (len(as) == 0 || len(want) == 0) && c.Bare
 				if emit != wantEmit {
 					res.diverge("tag emitted=%v, spec expects %v on %q", emit, wantEmit, b)
